@@ -411,9 +411,10 @@ def variant_pairs(chk, work, base):
 
 
 def run(chk):
-    chk.proof(MODULE, THEOREMS)
+    from props import step
+    chk.proof(MODULE, THEOREMS + step.THEOREMS, extra_modules=[step.MODULE])
     if chk.tier == 'thorough':
-        chk.leanchecker([MODULE])
+        chk.leanchecker([MODULE, step.MODULE])
     rng = chk.rng
     fbad, nsub = footprint_scan(core.REPO)
     if fbad:
@@ -558,6 +559,10 @@ def run(chk):
                'swapping); timesteps cycle through 300, 600, 48, 100, 450, 225, 150, 360',
                mismatches=bad, branches=branches)
     variant_pairs(chk, work, base)
-    chk.assumptions.append('the physics of one step is an uninterpreted function of (state, current forcing row, '
-                           'clock, deep temperature) in the theorems; that the real step reads nothing else is '
-                           'checked by the footprint scan and by these paired runs, not proved')
+    # composition C: the physics of one step as one Lean function, tied exactly to the real loop body
+    step.run_step(chk)
+    chk.assumptions.append('the theorems hold for ANY physics that is a function of (state, current forcing row, '
+                           'clock, deep temperature), and are instantiated at the concrete composed step '
+                           '(Props/Step.lean); that the real loop body IS that function is the exact tie of '
+                           'props/step.py (small configurations, one or two passes) together with the footprint '
+                           'scan and the paired full runs')
